@@ -7,8 +7,10 @@ Driver for C05: interprets the scripted-coroutine programs of harness/h_exec.cpp
 Grammar: `case <id> exec <via>` · `a <cid> <act>` (append an act to the script of coroutine cid) ·
 `m <act>` (ordinary code performs the act now; everything that runs until control is back in ordinary code
 is printed as events `<cid>.<pc>@<depth>`) · `end`.
-Acts: `wake:<d|a|r>:<ids>` `detach:<d|a|r>:<id>` `gather:<d|a>:<ids>` `park` `parkn` `pause` `swap`
-`start:<id>` `call:<id>` `join:<id>` `end` `enter` `leave`.
+Acts: `wake:<d|a|r|x>:<ids>` `detach:<d|a|r|x>:<id>` `gather:<d|a>:<ids>` `park` `parkn` `pause` `swap`
+`start:<id>` `call:<id>` `join:<id>` `end` `enter` `leave` `leavex`.  Mode `x` (suspend point destroyed by stack
+unwinding) and `leavex` (the callback of `install_queue_and_call` throws) are `Mode.discard` / `Act.leave` in the
+model: `~suspend_point` and `trailer::~trailer` do the same work whether or not an exception is in flight.
 -/
 open Cocls Cocls.Proto Cocls.Exec
 
@@ -34,6 +36,7 @@ def parseAct (tok : String) : Option Act :=
   | ["end"] => some Act.fin
   | ["enter"] => some Act.enter
   | ["leave"] => some Act.leave
+  | ["leavex"] => some Act.leave    -- the callback throws: the trailer runs during unwinding, same effect
   | _ => none
 
 structure Prog where
